@@ -417,7 +417,12 @@ def oracle_vqe_history(ctx, L, init, ops):
     return nrun
 
 
-def oracle_value_history(ctx, n, init_strings, state, ops):
+def op_term(op):
+    return ct.lst([ct.pair(ct.pair(ct.bits(w.paulis.z), ct.bits(w.paulis.x), ct.z(w.paulis.q)), ct.qi(complex(w.weight)))
+                   for w in op.pstrings])
+
+
+def oracle_value_history(ctx, n, init_strings, state, ops, events=None):
     """measure_expectation_statevector / PauliOperator.as_matrix called repeatedly on ONE operator object and ONE state array
     that are changed in place in between.  ops: ["measure"] | ["matrix"] | ["op_add", ..] | ["op_scale", s] | ["op_drop", k] |
     ["state_inplace", [[re, im], ..]].  Values and matrices handed out earlier must stay what they were."""
@@ -427,25 +432,33 @@ def oracle_value_history(ctx, n, init_strings, state, ops):
     psi = cstate(state)
     held = []
     last_change = "construction"
+    if events is not None:      # for the exact Coq case: what the operator object / the state array contain, re-read after every change
+        events += ["HOp %s" % op_term(op), "HPsi %s" % ct.lst([ct.qi(complex(c)) for c in psi])]
 
     def inp_of(k):
         return {"kind": "value-history", "n": n, "strings": init_strings, "state": state, "ops": [list(o) for o in ops[:k + 1]]}
     for k, m in enumerate(ops):
         if m[0] == "measure":
             val = complex(measure_expectation_statevector(op, psi))
+            if events is not None:
+                events.append(("HMeasure", val))
             ref = complex(np.vdot(psi, shadow_matrix(strings, n) @ psi))
             if abs(val - ref) > TOL * max(1.0, abs(ref)):
                 ctx.fail("history:expectation != psi^dagger P psi for the CURRENT operator and state (last change: %s)" % last_change,
                          inp_of(k), repr(ref), repr(val))
-                return
+                return False
         elif m[0] == "matrix":
             M = op.as_matrix()
             held.append((M, shadow_matrix(strings, n), k))
         elif m[0] == "state_inplace":
             psi[:] = cstate(m[1])
             last_change = "state changed in place"
+            if events is not None:
+                events.append("HPsi %s" % ct.lst([ct.qi(complex(c)) for c in psi]))
         else:
             strings = apply_op_mutation(op, strings, m)
+            if events is not None:
+                events.append("HOp %s" % op_term(op))
             last_change = {"op_add": "add_pauli_string on the same operator object", "op_scale": "weights of the same operator object changed",
                            "op_drop": "a string removed from the same operator object"}[m[0]]
         for M, R, k0 in held:
@@ -454,7 +467,8 @@ def oracle_value_history(ctx, n, init_strings, state, ops):
                 ctx.fail("history:operator matrix %s" % ("!= the current operator (last change: %s)" % last_change if k0 == k else
                                                           "handed out earlier was changed by a later call"),
                          dict(inp_of(k), obtained_at_step=k0))
-                return
+                return False
+    return True
 
 
 def oracle_qucc_history(ctx, L, exc, plist):
@@ -501,7 +515,7 @@ def run(ctx):
                      "L=2..3 (4 for s%s); tiny VQE runs (s, d, sd; real and complex-phase initial state). "
                      "non-trivial = state with a non-zero imaginary part, or a cluster/qUCC case with >= 2 non-zero parameters, or a VQE run; "
                      "distinct by the full input" % (nmax, 5 if ctx.thorough else 4, 4 if ctx.thorough else 3, " and d" if ctx.thorough else ""))
-    ctx.lib(["VQE/VqeCheck", "VQE/VqeProofs", "VQE/VqeReal"])
+    ctx.lib(["VQE/VqeCheck", "VQE/VqeProofs", "VQE/VqeReal", "VQE/VqeHistProofs"])
     ok_tr = ctx.translate("GenVqe", gen.generate)
     if ok_tr:
         ctx.props()
@@ -799,14 +813,20 @@ def run(ctx):
             if rng.random() < 0.5:
                 ops.append(["matrix"])
         ctx.count("history_value")
+        evs = []
         try:
-            oracle_value_history(ctx, n, strings, state, ops)
+            okh = oracle_value_history(ctx, n, strings, state, ops, events=evs)
         except Exception as e:
             ctx.fail("history:expectation:exception:" + type(e).__name__,
                      {"kind": "value-history", "n": n, "strings": strings, "state": state, "ops": ops}, None, repr(e))
             continue
         ctx.evaluations += 1
         ctx.nontriv({"kind": "value-history", "n": n, "rep": rep, "ops": [m[0] for m in ops]})
+        if okh:
+            vals = [e[1] for e in evs if isinstance(e, tuple)]
+            add("CHistExpect %s %s %s" % (ct.nat(n), ct.lst([e[0] if isinstance(e, tuple) else e for e in evs]),
+                                           ct.lst([ct.qi(v) for v in vals])),
+                {"kind": "value-history", "n": n, "op": "expectation history", "strings": strings, "state": state, "ops": ops}, True)
     for exc in ("s", "d", "sd"):
         for L in (2, 3) if exc == "s" or ctx.thorough else (2,):
             for rep in range(3 if ctx.thorough else 1):
